@@ -75,7 +75,7 @@ def date_of_serial(n):
 
 def text_number(v):
     """ what to_number makes of a value: numeric text becomes its number, everything else is unchanged """
-    if is_str(v):
+    if is_str(v) and '_' not in v:
         if text_is_int(v):
             return int_of_text(v)
         if text_is_float(v):
@@ -222,7 +222,10 @@ def as_date_result(n):
     """ a numeric result returned as a date: #NUM! if it would precede 1900 """
     if n < 0:
         return NUM
-    return date_of_serial(n)
+    try:
+        return date_of_serial(n)
+    except OverflowError:
+        return NUM            # beyond 31 December 9999 there is no date either (the operator's own value since the fix 'too large is #NUM!')
 
 
 def amp(a, b):
